@@ -70,6 +70,7 @@ CHECKS = {
             dict(run="TestRequestEncode", checks_quick=15000, checks_thorough=400000, shards_thorough=4),
             dict(run="TestResponseDecode", checks_quick=10000, checks_thorough=300000, shards_thorough=4),
             dict(run="TestRoundTrip", checks_quick=10000, checks_thorough=300000, shards_thorough=2),
+            dict(run="TestProducePageBoundary", checks=None, timeout=1800),
             dict(run="TestConnRequests", checks_quick=250, checks_thorough=3000, shards_quick=3, shards_thorough=8, timeout=2400),
             dict(run="TestGroupRequests", checks_quick=200, checks_thorough=3000, shards_quick=1, shards_thorough=4, timeout=2400),
             dict(run="TestRequestEncode", build="unsafe", checks_quick=6000, checks_thorough=100000),
